@@ -32,6 +32,16 @@ def consts(tier: str):
     }
 
 
+def consts_edge_contact():
+    """two blocks touching along ONE edge, the second in every one of the 24 numberings (so that the shared edge is the first,
+    second, third and fourth wire of its direction in either block), one extra chop that may conflict"""
+    return {
+        "Variant": '"fixed"', "Topos": g.tla_set(["edge2"]), "Rot1Choice": "{1, 6, 11, 16, 21, 30, 36, 43}",
+        "RotChoice": "{" + ", ".join(str(n) for n in sorted(__import__("harness.hexref", fromlist=["ROT_IDX"]).ROT_IDX)) + "}",
+        "ChopOpts": g.tla_set(["A2", "B3"]), "MaxChopped": "1", "Cover": "TRUE", "AllOrders": "FALSE", "PassBound": "4", "Rounds": "1",
+    }
+
+
 def consts_multisection():
     """thorough only: two-section chops and more numberings on the two-block topologies"""
     return {
@@ -49,6 +59,7 @@ def run(ctx: Ctx) -> None:
     ctx.rule = ("configurations = Init states of Grading.tla (topology x corner numbering x chop placement covering "
                 "every family); non-trivial = at least two blocks share an edge; distinct by (vertex ids, chops)")
     cfgs = g.model_check(ctx, c, INVS, timeout=3000, emit=True).records
+    edge_cfgs = g.model_check(ctx, consts_edge_contact(), INVS, timeout=3000, emit=True).records
     if ctx.tier == "thorough":
         cfgs += g.model_check(ctx, consts_multisection(), INVS, timeout=3000, emit=True).records
     rng = random.Random(ctx.seed)
@@ -64,6 +75,19 @@ def run(ctx: Ctx) -> None:
         ctx.exhaustive = False
     else:
         ctx.exhaustive = True
+    # edge contacts: every conflicting configuration in the thorough tier, a sample in the quick one (one schedule each)
+    erng = random.Random(ctx.seed + 101)
+    conflicts = [x for x in edge_cfgs if x["expected"] != "Written"]
+    others = [x for x in edge_cfgs if x["expected"] == "Written"]
+    if ctx.tier == "quick":
+        conflicts, others = erng.sample(conflicts, min(len(conflicts), 500)), erng.sample(others, min(len(others), 100))
+    for cfg in conflicts + others:
+        obs = g.observe(cfg, ctx, random.Random(erng.random()))
+        ctx.evaluated(g.cfg_key(cfg))
+        bad = g.judge_outcome("C01", cfg, obs)
+        if bad:
+            ctx.violation(bad[0] + ":edge-contact", bad[1], {"cfg": g.summarize(cfg), "observed": obs["outcome"], "schedule": 0})
+        ctx.validated()
     for cfg in cfgs:
         for k in range(n_sched):
             obs = g.observe(cfg, ctx, random.Random(rng.random()))
